@@ -23,6 +23,7 @@ structure St where
   impls : Array MatchKey := #[]
   cqs : Array (Nat × List Nat) := #[]
   sups : List String := []
+  crashed : Bool := false   -- Query::new crashed / did not terminate in the guarded child process
 
 def strOfHex (h : String) : String :=
   if h == "-" then "" else
@@ -247,6 +248,7 @@ def hasQuantifierToken (q : String) : Bool :=
 
 def runCase (s : St) : String :=
   let tail := s!"compiled={s.compiled.getD false} haserror={s.hasError}"
+  if s.crashed then s!"{s.id} judge=FAIL compile-crash-plus-on-empty-matching-group {tail}" else
   match buildVT s.nodes.toList with
   | none => s!"{s.id} judge=FAIL badtree {tail}"
   | some vt =>
@@ -341,6 +343,7 @@ def step (s : St) (line : String) : IO St := do
   | ["haserror", b] => return { s with hasError := b == "1" }
   | ["query", h] => return { s with query := strOfHex h }
   | ["compile", "ok"] => return { s with compiled := some true }
+  | ["compile", "crash"] => return { s with crashed := true }
   | ["compile", "err", off, kind, len] =>
     return { s with compiled := some false, errOffset := natOf off, errKind := kind, srcLen := natOf len }
   | "supertypes" :: names => return { s with sups := names.map strOfHex }
